@@ -1,6 +1,8 @@
 import Crusta.Proofs.Oracle
 import Crusta.Proofs.DynHistory
+import Crusta.Proofs.DynTotal
 import Crusta.Proofs.StaticAll
+import Crusta.Proofs.DynAttHistory
 
 /-!
 # C08 — dynamic solvers always answer for the current framework (property theorems)
@@ -17,6 +19,10 @@ extensions on the shared SAT solver (blocking clauses guarded by a selector that
 the search); its soundness is `Dyn.wp_prSkepQuery` (`Proofs/DynPR.lean`): YES means that every
 preferred extension of the current framework contains the argument, NO comes with a preferred
 extension that does not, and the computation cached for later queries is a true statement.
+
+`supported_queries_are_answered` adds totality (`Proofs/DynTotal.lean`): a supported query about an
+existing argument never panics and, unless the SAT solver gives up, ends with that answer; the search
+loop of the preferred solver terminates within `prFuel` iterations.
 -/
 
 namespace Crusta.C08
@@ -40,6 +46,28 @@ theorem dynamic_answers_for_current_framework {sem : DSem} {fuel : Nat}
   obtain ⟨hq, henc, hops⟩ := reach_inv hreach
   exact ⟨hops, (query_ok hq henc q hl hs hrun).2.2⟩
 
+/-- **each supported query is answered.**  In every reachable state a query the solver offers
+(`Supported`: credulous for the complete solver, both for the stable one, skeptical for the preferred
+one), about an argument of the framework, on sound replies, does not panic: the run ends with an
+answer — and then it is the right one for the framework obtained by applying `ops` — unless the SAT
+solver replied `unknown` (the query is aborted) or the reply list is exhausted.  For the preferred
+solver the fuel of the model's loop must cover `prFuel` (`FuelOK`), the proved bound on the number of
+iterations of the search; the Rust loop has no fuel. -/
+theorem supported_queries_are_answered {sem : DSem} {fuel : Nat}
+    {ops : List StoreOp} {d : DState} {w : World} (hreach : Reach sem fuel ops d w)
+    (q : DQuery) (hq : Supported sem q) {l id : Nat} (hl : d.pending.Live id l) {fuel' : Nat}
+    (hfuel : FuelOK sem d.pending fuel') {rs : List Reply} (hs : RunSound (query fuel' d q l) rs w) :
+    (∀ msg w', interp (query fuel' d q l) rs w ≠ (.crashed msg, w')) ∧
+    ((∃ d' a w', interp (query fuel' d q l) rs w = (.done (d', a), w') ∧
+        Store.runOps Store.empty ops = some d.pending ∧ AnswerOK sem d.pending q l a) ∨
+     (∃ w', interp (query fuel' d q l) rs w = (.abort, w')) ∨
+     (∃ w', interp (query fuel' d q l) rs w = (.starved, w'))) := by
+  obtain ⟨hq', henc, hops⟩ := reach_inv hreach
+  refine ⟨wp_no_crash _ rs w _ (supported_query_total hq' henc q hq hfuel hl) hs, ?_⟩
+  rcases supported_query_outcome hq' henc q hq hfuel hl hs with ⟨d', a, w', hrun, _, _, hans⟩ | hr
+  · exact Or.inl ⟨d', a, w', hrun, hops, hans⟩
+  · exact Or.inr hr
+
 /-- what `AnswerOK` says, spelled out for a credulous query: YES comes with an extension of the
 current framework that contains the argument, NO means that no extension contains it -/
 theorem credulous_answer_meaning (sem : DSem) (st : Store) (l id : Nat) (a : AccAns)
@@ -61,9 +89,12 @@ theorem semantics_are_the_spec (af : AF) (S : ASet) :
 /-- **re-encoding.**  Whatever updates are buffered, `update_encoding` leaves the solver's
 framework equal to the pending one and a clause database in which no stale constraint is active
 (`DInv.clean`: nothing dirty) — this is what makes retired selectors and removed arguments
-harmless. -/
-theorem update_encoding_resynchronises {sem : DSem} {d : DState} {w : World} (h : DInv sem d w) :
-    wp True d.updateEncoding w (fun d' w' => DInv sem d' w' ∧ d'.af = d.pending ∧ d'.pending = d.pending ∧
+harmless.  The statement holds for every reading `C` of the crash nodes of the model, in particular
+for `C = False`: the replay of the buffer never panics (the buffered updates were validated against
+the pending framework, so each replayed store operation succeeds, every live argument has a variable
+and every selector to retire is among the assumptions). -/
+theorem update_encoding_resynchronises {C : Prop} {sem : DSem} {d : DState} {w : World} (h : DInv sem d w) :
+    wp C d.updateEncoding w (fun d' w' => DInv sem d' w' ∧ d'.af = d.pending ∧ d'.pending = d.pending ∧
       d'.buffer = d.buffer ∧ d'.next = d.buffer.length) := wp_updateEncoding h
 
 /-- **soundness and completeness of the incremental encoding**: with nothing dirty, the
@@ -112,5 +143,19 @@ theorem recompute_wrapper_answers (sk : SolverKind) (cfg : Cfg) (hcfg : CfgOK sk
   injection hs' with hs'
   subst hs'
   exact static_answers_conform sk cfg hcfg st.view st.g (Store.view_ok st hinv hrows) e hargs p hp w hb rs hs ans w' hrun
+
+/-- **the two assumptions-on-attacks solvers** (model `Crusta.DynAtt`, replayed call by call by the
+`dyn` family, kinds `co_att` / `st_att`, every reservation factor `num/den ≥ 1`): after any history
+of update calls and queries (re-encodings into fresh SAT solvers, reuse of reserved argument
+variables, cached answers), a query about an argument of the framework that completes on sound
+replies returns the status and certificate the semantics dictate for the framework reached by the
+update calls. -/
+theorem attack_assumption_solvers_answer {sem : DSem} (hsem : sem ≠ .PR) {num den : Nat}
+    (hfac : 0 < den ∧ den ≤ num) {ops : List StoreOp} {d : DynAtt.ADState} {w : World}
+    (h : DynAtt.Reach sem num den ops d w) (q : DQuery) {l id : Nat} (hl : d.pending.Live id l)
+    {rs : List Reply} (hs : RunSound (DynAtt.query d q l) rs w) {d' : DynAtt.ADState} {a : AccAns} {w' : World}
+    (hrun : interp (DynAtt.query d q l) rs w = (.done (d', a), w')) :
+    ∃ st, Store.runOps Store.empty ops = some st ∧ st = d.pending ∧ AnswerOK sem st q l a :=
+  DynAtt.answers_correct hsem hfac h q hl hs hrun
 
 end Crusta.C08
